@@ -442,6 +442,25 @@ def cflt(tok):
     return {"inf": "FInf", "-inf": "FNegInf", "nan": "FNaN"}.get(tok) or f"(FTok {cstr(tok)})"
 
 
+def cz(text):
+    """A decimal numeral as a Gallina Z; long ones as base-2^60 digits (Corr.zbig)."""
+    if len(text) <= 60:
+        return f"({text})%Z"
+    import sys
+    old = sys.get_int_max_str_digits()
+    sys.set_int_max_str_digits(0)
+    try:
+        n = int(text)
+    finally:
+        sys.set_int_max_str_digits(old)
+    neg, n = n < 0, abs(n)
+    chunks = []
+    while n:
+        chunks.append(n & ((1 << 60) - 1))
+        n >>= 60
+    return f"(zbig {G.b(neg)} [" + "; ".join(f"{c}%N" for c in reversed(chunks)) + "])"
+
+
 KIND = {"l": "KList", "v": "KVec", "s": "KSet", "q": "KQueue", "pl": "KPyList", "pt": "KPyTuple", "ps": "KPySet"}
 DSPECIAL = {"Infinity": "FInf", "-Infinity": "FNegInf", "NaN": "FNaN", "-NaN": "FNaN"}
 
@@ -453,9 +472,9 @@ def coq_value(j):
     if t == "b":
         return f"(VBool {G.b(j[1])})"
     if t == "i":
-        return f"(VInt ({j[1]})%Z)"
+        return f"(VInt {cz(j[1])})"
     if t == "r":
-        return f"(VRatio ({j[1]})%Z ({j[2]})%Z)"
+        return f"(VRatio {cz(j[1])} {cz(j[2])})"
     if t == "f":
         return f"(VFloat {cflt(j[1])})"
     if t == "d":
